@@ -70,11 +70,75 @@ def _store_role(t: ast.AST) -> Optional[str]:
     return None
 
 
-def _leg_roles(u: Unit, node_names: Set[str]) -> Dict[int, Set[str]]:
+def flag_case(u: Unit, du: DefUse, flags: Optional[Dict[str, bool]] = None):
+    """Path condition fixing boolean flag parameters of u (default: their default values -
+    the way the forward consumers call the helper)."""
+    from oqv.pathcond import Case
+    a = u.node.args
+    names = [x.arg for x in a.args]
+    defaults = dict(zip(names[len(names) - len(a.defaults):], a.defaults))
+    fixed = {n: d.value for n, d in defaults.items()
+             if isinstance(d, ast.Constant) and isinstance(d.value, bool)}
+    fixed.update(flags or {})
+
+    def decide(nid, e):
+        if isinstance(e, ast.Name) and e.id in fixed and not any(
+                df.name == e.id and df.value is not None for df in du.defs):
+            return fixed[e.id]
+        return None
+    case = Case(du, decide, label=", ".join(f"{k}={v}" for k, v in sorted(fixed.items())))
+    case.flag_values = {k: v for k, v in fixed.items()
+                        if not any(df.name == k and df.value is not None for df in du.defs)}
+    return case
+
+
+def axis_values(du: DefUse, case, nid: Optional[int], e: ast.AST) -> Set[int]:
+    """Constant integer values an axis index expression can take at node nid under the case
+    (a literal, or a local bound to literals, also through `a, b = 2, 3`)."""
+    if isinstance(e, ast.Constant) and isinstance(e.value, int):
+        return {e.value}
+    if isinstance(e, ast.UnaryOp) and isinstance(e.op, ast.USub) and isinstance(e.operand, ast.Constant):
+        return {-e.operand.value}
+    out: Set[int] = set()
+    if isinstance(e, ast.Name) and nid is not None:
+        ids = case.defs(e.id, nid) if case is not None else {d.id for d in du.reaching(nid, e.id)}
+        for i in ids:
+            if i is None:
+                return set()
+            d = du.defs[i]
+            v = d.value
+            idx = [s_[1] for s_ in d.sel if s_[0] == "idx"]
+            # `a, b = (3, 2) if flag else (2, 3)`: the branch the case selects
+            fv = getattr(case, "flag_values", {}) if case is not None else {}
+            while isinstance(v, ast.IfExp):
+                t = v.test
+                neg = False
+                while isinstance(t, ast.UnaryOp) and isinstance(t.op, ast.Not):
+                    t, neg = t.operand, not neg
+                if isinstance(t, ast.Name) and t.id in fv:
+                    v = v.body if (fv[t.id] != neg) else v.orelse
+                else:
+                    return set()
+            if isinstance(v, (ast.Tuple, ast.List)) and len(idx) == 1 and idx[0] < len(v.elts):
+                v = v.elts[idx[0]]
+            elif d.sel:
+                return set()
+            if isinstance(v, ast.Constant) and isinstance(v.value, int):
+                out.add(v.value)
+            else:
+                return set()
+    return out
+
+
+def _leg_roles(u: Unit, node_names: Set[str], flags: Optional[Dict[str, bool]] = None
+               ) -> Dict[int, Set[str]]:
     """axis index -> roles inferred from how `node[axis]` is used (what it is connected to,
-    where the edge taken from it is stored) - independent of the names of the locals."""
+    where the edge taken from it is stored) - independent of the names of the locals.  Axis
+    indices held in locals are resolved under the path condition of the flag parameters."""
     roles: Dict[int, Set[str]] = {}
     du = DefUse(u, CFG(u.node, exc_edges=False))
+    case = flag_case(u, du, flags)
+    reach = case.reachable()
     other_nodes = {t.id for st in walk_local(u.node) if isinstance(st, ast.Assign)
                    and isinstance(st.value, ast.Call) and (dotted(st.value.func) or "").endswith("Node")
                    for t in st.targets if isinstance(t, ast.Name)} - node_names
@@ -83,11 +147,17 @@ def _leg_roles(u: Unit, node_names: Set[str]) -> Dict[int, Set[str]]:
         roles.setdefault(ax, set()).add(r)
 
     def node_axis(e):
-        if isinstance(e, ast.Subscript) and dotted(e.value) in node_names and \
-                isinstance(e.slice, ast.Constant):
-            return e.slice.value
+        if isinstance(e, ast.Subscript) and dotted(e.value) in node_names:
+            if isinstance(e.slice, ast.Constant):
+                return e.slice.value
+            vals = axis_values(du, case, du.node_of(e), e.slice)
+            if len(vals) == 1:
+                return next(iter(vals))
         return None
     for x in walk_local(u.node):
+        nid_x = du.node_of(x)
+        if nid_x is not None and nid_x not in reach:
+            continue
         # connections  A ^ B
         if isinstance(x, ast.BinOp) and isinstance(x.op, ast.BitXor):
             for side, other in ((x.left, x.right), (x.right, x.left)):
